@@ -24,9 +24,10 @@ BASE_CFG = {
     "n_tables": (1, 2),
     "final_order": 0.6,
     "ops": {"ordered_window": 5, "window": 4, "natural_join": 4, "order_rows": 3},
+    "null_order_cols": True,
 }
 
-INDEX_KINDS = ["default", "shuffled_int", "str_labels", "duplicate_labels", "descending"]
+INDEX_KINDS = ["default", "shuffled_int", "str_labels", "duplicate_labels", "descending", "range_offset", "range_step"]
 
 
 def permuted_case(case, perms):
@@ -52,6 +53,14 @@ def reindex(frames, kinds):
             df.index = [i // 2 for i in range(n)]
         elif k == "descending":
             df.index = list(range(n, 0, -1))
+        elif k == "range_offset":
+            import pandas
+
+            df.index = pandas.RangeIndex(10, 10 + n)  # what d.iloc[10:] / d.tail(k) carry
+        elif k == "range_step":
+            import pandas
+
+            df.index = pandas.RangeIndex(0, 2 * n, 2)  # what d.iloc[::2] carries
         out[tn] = df
     return out
 
@@ -216,6 +225,22 @@ def check(wrapped):
                             ),
                             info,
                         )
+            # "exactly the first `limit` rows of that order": the un-limited program ends in the same order_rows, so
+            # its output on this engine IS that order (wherever the engine puts NULLs); the limited output must carry
+            # the same order-key sequence as its first `limit` rows.
+            ki = [cols.index(c) for c in root["cols"]]
+            got_keys = [[r[j] for j in ki] for r in a[1]]
+            want_keys = [[r[j] for j in ki] for r in fr[:want]]
+            for pos, (gk, wk) in enumerate(zip(got_keys, want_keys)):
+                if not cmp.row_eq(gk, wk):
+                    return (
+                        Failure(
+                            f"{engine}: with limit={lim} row {pos} has order key {gk}, but row {pos} of the same engine's un-limited ordered output has {wk}",
+                            {"kind": "limit_not_first_rows", "engine": engine, "null_in_key": any(v is None for v in gk + wk)},
+                            {"limited": cmp.brief(a, 10), "unlimited": cmp.brief(f_, 10)},
+                        ),
+                        info,
+                    )
             info["limit_checked"] = True
     return None, info
 
